@@ -105,6 +105,9 @@ fn expressions(tier: Tier, seed: u64) -> (Vec<(String, &'static str)>, Vec<serde
             e.push((format!("[{x}--{y}]"), "escapes-ranges"));
         }
     }
+    for x in ["[a-c--]", "[a-c~~]", "[a-c&&]", "[&&a-c]", "[--a-c]", "[^a-c--]", "[x[a-c--]]", "[a-z&&[a-c~~]]", "[^&&]", "[\\w--]"] {
+        e.push((x.to_string(), "escapes-ranges"));
+    }
     fams.push(json!({"family": "literal escapes (\\x2E, \\u{..}, \\n, \\-, ...) and ranges with bounds at 0, the surrogate gap, U+FFFF/U+10000 and U+10FFFF, alone, negated, in unions and under &&, --, ~~", "expressions": e.len() - n0, "exhaustive": true}));
     // named atoms in contexts
     let n0 = e.len();
